@@ -351,7 +351,7 @@ theorem W_connackResend (fuel : Nat) :
 theorem W_handleConnack (s : S) (sp : Bool) (result : Nat) (ok : Bool) (h : W s) :
     W (s.handleConnack sp result ok).1 := by
   unfold handleConnack
-  extract_lets pre sr s1 s2 shown s3
+  extract_lets pre sr s1 shown s3
   clear_value pre
   have h1 : W s1 := by
     simp only [s1]; split <;> exact h
